@@ -25,6 +25,13 @@ C15 check, never ignored):
 * DynamicRFKickMap::apply / _calcKick (src/SM/DynamicRFKickMap.cpp): the order of `_calcKick()`,
   `KickMap::apply()`, `_past_modulation.emplace_back(front)`, `_next_modulation.pop()` -> gen_dyn_apply; the
   queue entry and components `_calcKick` hands to RFKickMap::_calcKick -> gen_dyn_calckick_args.
+* the class declarations of inc/SM/*.hpp (one class per header, named like the header; single inheritance below
+  SourceMap, whose applyTo must be pure virtual): per class the nearest class on the way up to SourceMap that declares
+  `applyTo` -> gen_applyTo_dispatch; the classes main() stores in the variables it calls `->applyToAll(trackme)` on ->
+  gen_tracked_classes; the bodies read here -> gen_applyTo_read (Identity::applyTo is checked to be empty).  A tracked
+  class that ends at an applyTo body other than KickMap's / FokkerPlanckMap's / Identity's (an override anywhere in
+  the hierarchy), a source map declared outside inc/SM, a second derived class in a header, multiple inheritance, an
+  applyTo template / using-declaration are TranslateErrors.
 
 Conventions of the emitted terms (Model/TrackX.v): float values that are certainly finite are `Qc` terms, the
 result of a float division and everything computed from it are `xval` terms; std::min/std::max on floats are
